@@ -30,9 +30,12 @@ of a program is the fold of its statements (`semantics_is_fold`); per gate, the 
 (all constant gates exactly; RX RY RZ U1 U2 U3 for all angles).
 
 NOT PROVED: nothing is left in `unproved` — `export_equiv_partial` covers every operation the exporter gets right on
-the pinned code.  What remains an ASSUMPTION (checked on every run by (A) and (B), not proved) is the link between
-the model's structured lines and the TEXT: that Rust prints a parameter as a decimal literal that reads back as the
-same double, and that the text lexes/parses to the lines.
+the pinned code.  What remains are three NAMED ASSUMPTIONS linking the model's
+structured lines to the TEXT (`export_equiv_text_partial`): `NumRoundTrip` (Rust prints a displayed number as a decimal
+literal that reads back as the same value), `LexesAsPrinted` (the text lexes to the token sequence `specToks` of the
+lines: exactly what correspondence (A) compares on every run; its literal-level half is `lexer_reads_decimal_literals`)
+and `ParsesAsPrinted` (the reference parser reads those tokens as the program `toProgramV`: kernel-checked on an instance
+of every statement and argument shape of the generated table, `parses_as_printed_samples`; checked by (B) on every run).
 Every library gate with a translation into `qelib1` has its per-gate obligation proved: the constants exactly
 (`constant_gates_exact`; CT, CTdg in `parametrised_controlled_gates`), all parametrised gates for all angles
 (`parametrised_one_qubit_gates`, `parametrised_controlled_gates`).
@@ -388,6 +391,131 @@ theorem export_equiv_program_partial (h : LawfulAmp α P) (hh : Proofs.Unitaries
   obtain ⟨p, hp, hrun⟩ := program_runs_as_lines (α := α) sh libTable c hsound ls he hrt nzT
   obtain ⟨cops, hcops, r1, r2, hr1, hr2, hrel⟩ := export_equiv_partial h hh ha ha2 ha3 hpi c hq hnc hs ls he
   exact ⟨p, cops, hp, hcops, r1, r2, by rw [hrun]; exact hr1, hr2, hrel⟩
+
+/-! ### … and about the TEXT, under two named assumptions -/
+
+/-- a printer of sample numbers: the integer `v` stands for `v/100`, printed with two decimals, or — when it is a
+multiple of 100 — as an integer literal (as `Display for f64` prints `1` for `1.0`) -/
+def samplePrinter (v : Int) : DecLit :=
+  if v % 100 = 0 then ⟨decide (v < 0), (v.natAbs / 100), 0⟩ else ⟨decide (v < 0), v.natAbs, -2⟩
+
+/-- one circuit with every library gate that has a translation — unconditional and, where the translation is a single
+statement, conditional on a permuted register — with negative, fractional and integral parameters, a nested
+`Kron`/`Loop`/`Composite`, `measure`, both shapes of `measure_all`, `reset`, `reset_all`, both shapes of `barrier` -/
+def parseSample : QCircuit Int :=
+  ⟨3, 3, [
+    .gate (.lib "H" []) [1],
+    .cond [2, 0, 1] 5 (.lib "H" []) [1],
+    .gate (.lib "X" []) [1],
+    .cond [2, 0, 1] 5 (.lib "X" []) [1],
+    .gate (.lib "Y" []) [1],
+    .cond [2, 0, 1] 5 (.lib "Y" []) [1],
+    .gate (.lib "Z" []) [1],
+    .cond [2, 0, 1] 5 (.lib "Z" []) [1],
+    .gate (.lib "S" []) [1],
+    .cond [2, 0, 1] 5 (.lib "S" []) [1],
+    .gate (.lib "Sdg" []) [1],
+    .cond [2, 0, 1] 5 (.lib "Sdg" []) [1],
+    .gate (.lib "T" []) [1],
+    .cond [2, 0, 1] 5 (.lib "T" []) [1],
+    .gate (.lib "Tdg" []) [1],
+    .cond [2, 0, 1] 5 (.lib "Tdg" []) [1],
+    .gate (.lib "V" []) [1],
+    .cond [2, 0, 1] 5 (.lib "V" []) [1],
+    .gate (.lib "Vdg" []) [1],
+    .cond [2, 0, 1] 5 (.lib "Vdg" []) [1],
+    .gate (.lib "I" []) [1],
+    .cond [2, 0, 1] 5 (.lib "I" []) [1],
+    .gate (.lib "RX" [.direct (-30)]) [1],
+    .cond [2, 0, 1] 5 (.lib "RX" [.direct (-30)]) [1],
+    .gate (.lib "RY" [.direct (-30)]) [1],
+    .cond [2, 0, 1] 5 (.lib "RY" [.direct (-30)]) [1],
+    .gate (.lib "RZ" [.direct (-30)]) [1],
+    .cond [2, 0, 1] 5 (.lib "RZ" [.direct (-30)]) [1],
+    .gate (.lib "U1" [.direct (-30)]) [1],
+    .cond [2, 0, 1] 5 (.lib "U1" [.direct (-30)]) [1],
+    .gate (.lib "U2" [.direct (-30), .direct (125)]) [1],
+    .cond [2, 0, 1] 5 (.lib "U2" [.direct (-30), .direct (125)]) [1],
+    .gate (.lib "U3" [.direct (-30), .direct (125), .direct (7)]) [1],
+    .cond [2, 0, 1] 5 (.lib "U3" [.direct (-30), .direct (125), .direct (7)]) [1],
+    .gate (.lib "CX" []) [2, 0],
+    .cond [2, 0, 1] 5 (.lib "CX" []) [2, 0],
+    .gate (.lib "CY" []) [2, 0],
+    .cond [2, 0, 1] 5 (.lib "CY" []) [2, 0],
+    .gate (.lib "CZ" []) [2, 0],
+    .cond [2, 0, 1] 5 (.lib "CZ" []) [2, 0],
+    .gate (.lib "Swap" []) [2, 0],
+    .gate (.lib "CH" []) [2, 0],
+    .cond [2, 0, 1] 5 (.lib "CH" []) [2, 0],
+    .gate (.lib "CRX" [.direct (-30)]) [2, 0],
+    .gate (.lib "CRY" [.direct (-30)]) [2, 0],
+    .gate (.lib "CRZ" [.direct (-30)]) [2, 0],
+    .cond [2, 0, 1] 5 (.lib "CRZ" [.direct (-30)]) [2, 0],
+    .gate (.lib "CS" []) [2, 0],
+    .cond [2, 0, 1] 5 (.lib "CS" []) [2, 0],
+    .gate (.lib "CSdg" []) [2, 0],
+    .cond [2, 0, 1] 5 (.lib "CSdg" []) [2, 0],
+    .gate (.lib "CT" []) [2, 0],
+    .cond [2, 0, 1] 5 (.lib "CT" []) [2, 0],
+    .gate (.lib "CTdg" []) [2, 0],
+    .cond [2, 0, 1] 5 (.lib "CTdg" []) [2, 0],
+    .gate (.lib "CU1" [.direct (-30)]) [2, 0],
+    .cond [2, 0, 1] 5 (.lib "CU1" [.direct (-30)]) [2, 0],
+    .gate (.lib "CU3" [.direct (-30), .direct (125), .direct (7)]) [2, 0],
+    .cond [2, 0, 1] 5 (.lib "CU3" [.direct (-30), .direct (125), .direct (7)]) [2, 0],
+    .gate (.lib "CCRX" [.direct (-30)]) [1, 2, 0],
+    .gate (.lib "CCRY" [.direct (-30)]) [1, 2, 0],
+    .gate (.lib "CCRZ" [.direct (-30)]) [1, 2, 0],
+    .gate (.lib "CCX" []) [1, 2, 0],
+    .cond [2, 0, 1] 5 (.lib "CCX" []) [1, 2, 0],
+    .gate (.lib "CCZ" []) [1, 2, 0],
+    .gate (.kron (.lib "RX" [.direct (-5)]) (.loop "l" 2 "c" 2 (.cons (.lib "CRX" [.direct (-8)]) [1, 0] (.cons (.lib "T" []) [0] .nil)))) [2, 0, 1],
+    .measure 1 2 .Z,
+    .measureAll [0, 1, 2] .Z,
+    .measureAll [2, 0, 1] .Z,
+    .reset 2,
+    .resetAll,
+    .barrier [0, 1, 2],
+    .barrier [2, 0]]⟩
+
+set_option maxRecDepth 100000 in
+/-- `ParsesAsPrinted` kernel-checked on the sample: every statement shape and every argument shape of the generated
+template table is read by the reference parser as the intended tree -/
+theorem parses_as_printed_samples :
+    (match exportCircuit libTable parseSample with
+     | .ok ls => (toProgramV samplePrinter ls).map fun p => decide (parse (specToks samplePrinter ls) = .ok p)
+     | _ => none) = some true := by decide +kernel
+
+/-- The reference lexer on the decimal literals `Display for f64` prints (digits, optionally `.` and digits, never an
+exponent), followed by one of the characters that follow a number in the exported text (`)`, `,`, `/`, blank, `;`, `]`,
+newline): `ddd` is read as the integer token of its value, `ddd.fff` as the token `dddfff · 10^(−|fff|)` — the
+literal-level half of `LexesAsPrinted`. -/
+theorem lexer_reads_decimal_literals (ip fp : List Char) (x : Char) (r : List Char)
+    (hip : ∀ c ∈ ip, Spec.OQ2.isDigit c = true) (hfp : ∀ c ∈ fp, Spec.OQ2.isDigit c = true)
+    (hx : x ∈ numberEnders) :
+    lexNumber (ip ++ x :: r) = (.int (Spec.OQ2.digitsVal ip), x :: r) ∧
+    lexNumber (ip ++ '.' :: (fp ++ x :: r)) =
+      (.real (Spec.OQ2.digitsVal (ip ++ fp)) (-(fp.length : Int)), x :: r) :=
+  ⟨lexNumber_int ip x r hip hx, lexNumber_real ip fp x r hip hfp hx⟩
+
+/-- The equivalence as a statement about the TEXT `Circuit::open_qasm()` returns: if the text lexes to the token
+sequence of the model's lines (`LexesAsPrinted`: correspondence (A)), those tokens parse as printed
+(`ParsesAsPrinted`: kernel-checked on `parses_as_printed_samples`, checked by (B) on every case) and the displayed
+numbers read back as their values (`NumRoundTrip`), then lexing and parsing the text with `Spec/OQ2` gives a program
+whose `Spec.OQ2.run` has the same branches (up to a permutation; register word; state up to a unit factor) as the
+Born semantics of the circuit. -/
+theorem export_equiv_text_partial (h : LawfulAmp α P) (hh : Proofs.Unitaries.LawfulHalf α P)
+    (ha : LawfulAngle α P) (ha2 : LawfulAngle2 α P) (ha3 : LawfulAngle3 α P) (hpi : LawfulAnglePi α P)
+    (sh : P → DecLit) (c : QCircuit P) (hq : 0 < c.nq) (hnc : c.nc ≤ 64)
+    (hs : ∀ op ∈ c.ops, op.equivSound libTable okParam c.nq c.nc = true) (ls : List (Line P))
+    (he : exportCircuit libTable c = .ok ls) (hrt : NumRoundTrip P sh (linesVals ls)) (text : String)
+    (hlex : LexesAsPrinted sh ls text) (hparse : ParsesAsPrinted sh ls) :
+    ∃ toks p cops, lex text = .ok toks ∧ parse toks = .ok p ∧ c.ops.mapM QOp.toCOp = some cops ∧
+      ∃ r1 r2 : List (Branch α), run (α := α) (P := P) nzT p = some r1 ∧
+        Spec.branches c.nq nzT cops [(zeroState c.nq, 0)] = some r2 ∧ PermRel P c.nq r1 r2 := by
+  obtain ⟨p, cops, hp, hcops, r1, r2, hr1, hr2, hrel⟩ :=
+    export_equiv_program_partial h hh ha ha2 ha3 hpi sh c hq hnc hs ls he hrt
+  exact ⟨specToks sh ls, p, cops, hlex, hparse p hp, hcops, r1, r2, hr1, hr2, hrel⟩
 
 end equiv
 
